@@ -71,10 +71,7 @@ type wst struct {
 	Exts    int  `json:"exts"`
 }
 
-func stOf(w *wsutil.Writer) wst {
-	v := w.VerifState()
-	return wst{v.Raw, v.Buf, v.N, v.Dirty, v.Fseq, v.Err, v.NoFlush, v.Extensions}
-}
+func stOf(w *wsutil.Writer) wst { return writerState(w) }
 
 var errSrc = errors.New("injected source error")
 
@@ -96,11 +93,27 @@ func werr(err error) string {
 	return vh.ErrClass(err)
 }
 
+// wsState: "server" | "client", optionally followed by "+ext" / "+frag" (further state bits that
+// say nothing about the side: frames are masked exactly when the client bit is set).
 func wsState(side string) ws.State {
-	if side == "client" {
-		return ws.StateClientSide
+	st := ws.StateServerSide
+	if strings.HasPrefix(side, "client") {
+		st = ws.StateClientSide
 	}
-	return ws.StateServerSide
+	if strings.Contains(side, "+ext") {
+		st |= ws.StateExtended
+	}
+	if strings.Contains(side, "+frag") {
+		st |= ws.StateFragmented
+	}
+	return st
+}
+
+func plainSide(side string) string {
+	if i := strings.IndexByte(side, '+'); i >= 0 {
+		return side[:i]
+	}
+	return side
 }
 
 // srcReader yields total position-coded bytes starting at global index base in
@@ -110,10 +123,14 @@ type srcReader struct {
 	chunk            int
 	end              error
 	dataErr          bool // the last bytes come together with the end error (n > 0, err != nil)
+	stall            bool // after its bytes the source returns (0, nil) for ever
 }
 
 func (s *srcReader) Read(p []byte) (int, error) {
 	if s.pos >= s.total {
+		if s.stall {
+			return 0, nil // a source that makes no progress any more (and reports no error either)
+		}
 		return 0, s.end
 	}
 	k := len(p)
@@ -279,7 +296,7 @@ func runWriter(sc wscenario) (evs []wev) {
 		}
 	}()
 	r.w = newWriterFor(sc, d)
-	r.evs = append(r.evs, wev{Ev: "setup", Key: sc.Key, Kind: "writer", Side: sc.Side, Op: sc.Op, Size: r.w.Size(), Out: []vh.F{}})
+	r.evs = append(r.evs, wev{Ev: "setup", Key: sc.Key, Kind: "writer", Side: plainSide(sc.Side), Op: sc.Op, Size: r.w.Size(), Out: []vh.F{}})
 	if sc.Ext {
 		r.attach()
 		r.evs = append(r.evs, wev{Ev: "SetExt", Compressed: false, Out: []vh.F{}})
@@ -331,13 +348,16 @@ func runOps(r *wrunner, ops []wop) (evs []wev) {
 			if parts[0] == "err" {
 				src.end = errSrc
 				e.SrcErr = "transport_src"
+			} else if parts[0] == "stall" {
+				src.stall = true
+				e.SrcErr = "no_progress" // (what a copy loop makes of such a source: io.ErrNoProgress)
 			} else {
 				src.end = errEOF()
 			}
 			if len(parts) > 1 {
 				fmt.Sscanf(parts[1], "%d", &src.chunk)
 			}
-			src.dataErr = !noCap && (total+r.acc)%2 == 1 // (not in replays of model behaviours: the model reads EOF separately)
+			src.dataErr = !noCap && (total+r.acc)%2 == 1 && !src.stall // (not in replays of model behaviours: the model reads EOF separately)
 			n, err := r.w.ReadFrom(src)
 			e.K, e.Total, e.N, e.Err = total, src.pos, int(n), werr(err)
 			r.observe(&e, total)
@@ -381,7 +401,7 @@ func runOps(r *wrunner, ops []wop) (evs []wev) {
 			r.ms = nil
 			r.hsent = r.acc
 			e.Ev = "Reset"
-			e.Side, e.Op, e.Size = side, op, r.w.Size()
+			e.Side, e.Op, e.Size = plainSide(side), op, r.w.Size()
 		case "ResetOp":
 			var op int
 			fmt.Sscanf(o.Arg, "%d", &op)
